@@ -109,6 +109,9 @@ class FakeSock:
                 self.eof = True
                 return
             resp, sw = r
+            if isinstance(kind, tuple) and kind[0] == "alter":
+                link.stats.fault("alter")
+                resp = bytes(kind[1](bytes(resp)))
         if kind == "recv_eof_after":
             link.stats.fault(kind)
             link.tlog("xchg", idx, apdu, "recv_eof_after", resp, "%04x" % sw)
